@@ -37,6 +37,41 @@ func ColumnToFloat32(cols io.ColumnInterface, name string) (outCol []float32, er
 		for i := range cc {
 			outCol[i] = float32(cc[i])
 		}
+	case []int8:
+		outCol = make([]float32, len(cc))
+		for i := range cc {
+			outCol[i] = float32(cc[i])
+		}
+	case []int16:
+		outCol = make([]float32, len(cc))
+		for i := range cc {
+			outCol[i] = float32(cc[i])
+		}
+	case []uint8:
+		outCol = make([]float32, len(cc))
+		for i := range cc {
+			outCol[i] = float32(cc[i])
+		}
+	case []uint16:
+		outCol = make([]float32, len(cc))
+		for i := range cc {
+			outCol[i] = float32(cc[i])
+		}
+	case []uint32:
+		outCol = make([]float32, len(cc))
+		for i := range cc {
+			outCol[i] = float32(cc[i])
+		}
+	case []uint64:
+		outCol = make([]float32, len(cc))
+		for i := range cc {
+			outCol[i] = float32(cc[i])
+		}
+	case []uint:
+		outCol = make([]float32, len(cc))
+		for i := range cc {
+			outCol[i] = float32(cc[i])
+		}
 	}
 	return outCol, nil
 }
@@ -68,6 +103,41 @@ func ColumnToFloat64(cols io.ColumnInterface, name string) (outCol []float64, er
 			outCol[i] = float64(cc[i])
 		}
 	case []int32:
+		outCol = make([]float64, len(cc))
+		for i := range cc {
+			outCol[i] = float64(cc[i])
+		}
+	case []int8:
+		outCol = make([]float64, len(cc))
+		for i := range cc {
+			outCol[i] = float64(cc[i])
+		}
+	case []int16:
+		outCol = make([]float64, len(cc))
+		for i := range cc {
+			outCol[i] = float64(cc[i])
+		}
+	case []uint8:
+		outCol = make([]float64, len(cc))
+		for i := range cc {
+			outCol[i] = float64(cc[i])
+		}
+	case []uint16:
+		outCol = make([]float64, len(cc))
+		for i := range cc {
+			outCol[i] = float64(cc[i])
+		}
+	case []uint32:
+		outCol = make([]float64, len(cc))
+		for i := range cc {
+			outCol[i] = float64(cc[i])
+		}
+	case []uint64:
+		outCol = make([]float64, len(cc))
+		for i := range cc {
+			outCol[i] = float64(cc[i])
+		}
+	case []uint:
 		outCol = make([]float64, len(cc))
 		for i := range cc {
 			outCol[i] = float64(cc[i])
